@@ -277,6 +277,7 @@ def exline_arithmetic_rule(stm: AST) -> AST:
         stm = stm.update(head=new_head, body=list(stm.body) + body)
     if stm.ast_type == ASTType.Minimize:
         stm = exline_minimize_terms(stm)
+        unique_vars = UniqueVariables(stm)
     if stm.ast_type in (ASTType.Rule, ASTType.Minimize):
         new_body: list[AST] = []
         for blit in stm.body:
